@@ -404,10 +404,13 @@ class LoadStream(Stream):
     """script files loaded by the real pyscript setup; some raise at module level or do not parse"""
 
     name = "load"
-    rule = ("2-5 script files, each defining a trigger and then returning, raising (through a function call at module level) an "
-            "exception of a builtin / user / BaseException kind, or failing to parse; both subsystems; observed: which files' triggers "
-            "answer afterwards, error records per file logger, whether pyscript's setup raised into Home Assistant; non-trivial = at "
-            "least one failing and one good file; distinct by the whole case")
+    rule = ("2-4 script files, each defining a @service and a trigger, then returning / raising (through a function call at module "
+            "level) an exception of a builtin, user or BaseException kind / failing to parse, then defining another @service and "
+            "trigger; loaded at start-up and, in 70% of the cases, rewritten (good files break, broken ones are repaired) and loaded "
+            "again by pyscript.reload once or twice; both subsystems; observed per phase and file: hass.services.has_service and "
+            "Function.service_cnt for both services, whether calling them and firing the trigger event runs anything, error records "
+            "on the file's logger, whether setup / reload raised into Home Assistant; non-trivial = at least one failing and one good "
+            "file; distinct by the whole case")
     requires = "From PV Require Import Policy.Errors Policy.ErrorsCheck."
     case_type = "lcase"
     check_model = "lcase_model_ok pv_cfg"
@@ -428,20 +431,32 @@ class LoadStream(Stream):
         cases = []
         kinds = ["syntax"] + [k for k in L.RAISE_KINDS if k not in ("PvErr2",)]
         k = rng.randrange(len(kinds))
+
+        def pick(p_ret):
+            nonlocal k
+            x = rng.random()
+            if x < p_ret:
+                return "ret"
+            if x < p_ret + 0.08:
+                return rng.choice(BASE_KINDS)
+            k += 1
+            return kinds[k % len(kinds)]
+
         while len(cases) < budget:
-            n = rng.randint(2, 5)
-            files = []
-            for i in range(n):
-                x = rng.random()
-                if x < 0.5:
-                    kind = "ret"
-                elif x < 0.6:
-                    kind = rng.choice(BASE_KINDS)
-                else:
-                    kind = kinds[k % len(kinds)]
-                    k += 1
-                files.append([f"f{chr(97 + i)}", kind])
-            cases.append({"sub": "legacy" if len(cases) % 2 == 0 else "dm", "files": files})
+            n = rng.randint(2, 4)
+            names = [f"f{chr(97 + i)}" for i in range(n)]
+            first = [[nm, pick(0.5)] for nm in names]
+            phases = [first]
+            if rng.random() < 0.7:
+                # reload with every file rewritten: good files break, broken ones are repaired, some stay
+                second = []
+                for nm, kd in first:
+                    x = rng.random()
+                    second.append([nm, ("ret" if kd != "ret" else pick(0.0)) if x < 0.6 else kd if x < 0.8 else pick(0.5)])
+                phases.append(second)
+                if rng.random() < 0.3:
+                    phases.append([[nm, pick(0.6)] for nm in names])
+            cases.append({"sub": "legacy" if len(cases) % 2 == 0 else "dm", "phases": phases})
         return cases
 
     def run_impl(self, ctx, cases):
@@ -450,22 +465,29 @@ class LoadStream(Stream):
         return [o for r in res for o in r]
 
     def to_coq(self, case, obs):
-        files = q.lst(kind_class(k) for _n, k in case["files"])
-        if "error" in obs:
-            return "(mkLCase %s true [] [])" % files
-        return "(mkLCase %s %s %s %s)" % (files, q.boolean(obs["escaped"]), q.lst(q.boolean(b) for b in obs["loaded"]),
-                                          q.lst(q.N(n) for n in obs["logs"]))
+        phs = []
+        ob = obs.get("phases", [])
+        for i, ph in enumerate(case["phases"]):
+            files = q.lst(kind_class(kd) for _n, kd in ph)
+            if i >= len(ob):
+                if "error" in obs and i == 0:
+                    phs.append("(mkLPhase %s true [] [] [])" % files)
+                break
+            o = ob[i]
+            phs.append("(mkLPhase %s %s %s %s %s)" % (files, q.boolean(o["escaped"]), q.lst(q.boolean(b) for b in o["loaded"]),
+                                                     q.lst(q.boolean(b) for b in o["residue"]), q.lst(q.N(n) for n in o["logs"])))
+        return "(mkLCase %s)" % q.lst(phs)
 
     def nontrivial(self, case, obs):
-        ks = [k for _n, k in case["files"]]
-        return any(k == "ret" for k in ks) and any(k != "ret" for k in ks)
+        ks = [kd for ph in case["phases"] for _n, kd in ph]
+        return any(x == "ret" for x in ks) and any(x != "ret" for x in ks)
 
     def kind(self, case, obs):
-        ks = {("ret" if k == "ret" else "base" if k in BASE_KINDS else "syntax" if k == "syntax" else "exc") for _n, k in case["files"]}
-        return f"{case['sub']}/{len(case['files'])}files/" + "+".join(sorted(ks))
+        ks = {("ret" if x == "ret" else "base" if x in BASE_KINDS else "syntax" if x == "syntax" else "exc") for ph in case["phases"] for _n, x in ph}
+        return f"{case['sub']}/{len(case['phases'][0])}files/{len(case['phases'])}phases/" + "+".join(sorted(ks))
 
     def describe(self, case, obs):
-        return {"sub": case["sub"], "files": case["files"], "observed": obs}
+        return {"sub": case["sub"], "phases": case["phases"], "observed": obs}
 
 
 # ------------------------------------------------------------------------------------------------
